@@ -87,7 +87,7 @@ def check(ctx):
             ctx.check(ok, "C14.R2", co.qualname + ":str", t, "str coercion is no longer restricted to int / float (bool excluded)", co, t, detail="isinstance(data, (int, float)) and not isinstance(data, bool)")
         if norm(t) == "cls is bool":
             txt = norm(ast.Module(body=body, type_ignores=[]))
-            ok = "isinstance(data, str)" in txt and "isinstance(data, int)" in txt and "bad_type(data, cls)" in txt
+            ok = "isinstance(data, str)" in txt and "isinstance(data, int)" in txt and ("bad_type(data, cls)" in txt or "bad_type(data, bool)" in txt)   # cls is bool here
             ctx.check(ok, "C14.R2", co.qualname + ":bool", t, "bool coercion must accept only words (str) and integers", co, t, detail="str -> table, int -> bool(), else bad_type")
 
     # per-target accept-sets: which classes of datum can reach a (non-identity) return of each branch
